@@ -38,10 +38,14 @@ META = dict(
 FORMULAS = ["C19_SplitSum", "C19_Cumulative", "C19_CustodyRoot", "C19_CustodyDelta", "C19_EpochCap", "C19_OnlyInEpoch", "C19_ProRata"]
 
 
-def _cfg(path, name, nu, maxfarm, maxg, tpl, steps, pools, amts, modes, emit, swap=None):
+def _cfg(path, name, nu, maxfarm, maxg, tpl, steps, pools, amts, modes, emit, swap=None, children=False):
     sw = "WithSwap = FALSE  FeeAmts = {}  FeeBudget = 0  FeeDenoms = {}  GovBudget = 0"
     if swap:
         sw = "WithSwap = TRUE  FeeAmts = %s  FeeBudget = %d  FeeDenoms = {101, 102}  GovBudget = %d" % swap
+    # children: four pools with assets of their own, every farmer holds a master position from the start, child positions and
+    # the prices of the child pools' pairs are arranged (all combinations) before the gauge is created
+    sw += ("  NP = 4  ChildPricePools = {2, 3, 4}  SetupFirst = TRUE  PreFarm = {1}" if children
+           else "  NP = 2  ChildPricePools = {}  SetupFirst = FALSE  PreFarm = {}")
     with open(os.path.join(path, name), "w") as f:
         f.write("SPECIFICATION Spec\nCONSTANTS NU = %d  MaxFarm = %d  MaxGauges = %d  Templates <- %s  Steps = %s  D = 2  FarmPools = %s  "
                 "Amts = %s  Modes = %s  Emit = %s\n  %s\nINVARIANTS Cumulative Custody SplitExact Finished\nCHECK_DEADLOCK FALSE\n"
@@ -67,17 +71,19 @@ def run(c):
     # last field: swap-fee gauges in the model (fee amounts, number of fee arrivals, number of denom changes); None = created gauges only
     models = [("single", 2, 2, 1, "TplSingle", "{1, 3, 5}", "{1}", "{1, 2}", Q, None),
               ("master", 2, 1, 1, "TplMaster", "{1, 3, 5}", "{1, 2}", "{1}", OFF, None),
-              ("swapfee", 1, 1, 1, "TplFee", "{3}", "{1}", "{1}", '{"q"}', ("{3}", 1, 1))]
+              ("swapfee", 1, 1, 1, "TplFee", "{3}", "{1}", "{1}", '{"q"}', ("{3}", 1, 1)),
+              ("children", 2, 1, 1, "TplChildren1", "{3}", "{2, 3, 4}", "{1}", '{"q"}', "children")]
     if not quick:
         models += [("single3", 3, 2, 1, "TplSingle", "{1, 3, 5}", "{1}", "{1, 2}", Q, None),
                    ("masterall", 2, 1, 1, "TplMasterAll", "{1, 3, 5}", "{1, 2}", "{1}", OFF, None),
                    ("twoA", 1, 1, 2, "TplTwo", "{3}", "{1, 2}", "{1}", '{"q"}', None),
                    ("twoB", 2, 1, 2, "TplTwo", "{3}", "{1}", "{1}", '{"q"}', None),
-                   ("swapfee2", 2, 1, 1, "TplFee", "{3}", "{1}", "{1}", '{"q"}', ("{3}", 1, 1))]
+                   ("swapfee2", 2, 1, 1, "TplFee", "{3}", "{1}", "{1}", '{"q"}', ("{3}", 1, 1)),
+                   ("childrenall", 2, 1, 1, "TplChildren", "{3}", "{2, 3, 4}", "{1}", '{"q"}', "children")]
     graphs, mstats = [], {}
     for (name, nu, mf, mg, tpl, steps, pools, amts, modes, swap) in models:
         cfg = "MC_Gauge_%s_run.cfg" % name
-        _cfg(wd, cfg, nu, mf, mg, tpl, steps, pools, amts, modes, True, swap)
+        _cfg(wd, cfg, nu, mf, mg, tpl, steps, pools, amts, modes, True, None if swap == "children" else swap, swap == "children")
         tf = os.path.join(wd, "G_%s.txt" % name)
         r = vlib.model_check(wd, "MC_Gauge", cfg, workers=1, tfile=tf, timeout=2400)
         gen += r["generated"]
@@ -97,11 +103,12 @@ def run(c):
     if quick:
         parts = [dict(vectors=tsplit, graphs=graphs, first=0, runs=24, steps=90, nbig=300)]
     else:
-        parts = [dict(vectors=tsplit, graphs=graphs[:3], first=0, runs=0, steps=0, nbig=3000),
-                 dict(vectors="", graphs=graphs[3:4], first=0, runs=0, steps=0, nbig=0),
+        parts = [dict(vectors=tsplit, graphs=graphs[:4], first=0, runs=0, steps=0, nbig=3000),
                  dict(vectors="", graphs=graphs[4:5], first=0, runs=0, steps=0, nbig=0),
-                 dict(vectors="", graphs=graphs[7:8], first=0, runs=0, steps=0, nbig=0),
-                 dict(vectors="", graphs=graphs[5:7], first=0, runs=100, steps=140, nbig=0),
+                 dict(vectors="", graphs=graphs[5:6], first=0, runs=0, steps=0, nbig=0),
+                 dict(vectors="", graphs=graphs[8:9], first=0, runs=0, steps=0, nbig=0),
+                 dict(vectors="", graphs=graphs[9:10], first=0, runs=0, steps=0, nbig=0),
+                 dict(vectors="", graphs=graphs[6:8], first=0, runs=100, steps=140, nbig=0),
                  dict(vectors="", graphs=[], first=100, runs=200, steps=140, nbig=0)]
     st, nnodes, outs, tstates = {}, 0, [], 0
     smp = [None, None, None]
@@ -143,7 +150,7 @@ def run(c):
             os.remove(lnk)
     c.samples = [dict(id=s["id"], run=s["run"], a=s["a"], args=s["args"], parent=s["parent"],
                       st=dict(s["st"], users=s["st"].get("users", [])[:2]) if "users" in s["st"] else s["st"]) for s in smp if s]
-    need = ["swapDenomSwitch", "swapNewDenomPaid", "swapProRataPaid", "swapBurnEpochs", "swapSharedDenomPaid", "govDenomChanges", "multiPoolSwapPaid",
+    need = ["masterManyChildren", "unpricedChildBeforePaid", "twoUnpricedChildren", "swapDenomSwitch", "swapNewDenomPaid", "swapProRataPaid", "swapBurnEpochs", "swapSharedDenomPaid", "govDenomChanges", "multiPoolSwapPaid", "feePullFailedBooked",
             "splits", "bigSplits", "gaugeEpochs", "proRataPaid", "masterPaid", "skippedEpochBlocks", "created", "rejected", "gaugesEnded",
             "noPriceEpochs", "swapFeePaid", "extPayBlocks", "lendPayBlocks", "bigStates", "roots"]
     zero = [k for k in need if st.get(k, 0) == 0]
@@ -157,11 +164,14 @@ def run(c):
         rule="(a) every (deposit, epochs) pair of the split table is one vector on the real SplitTotalAmountPerEpoch (+ seeded real-size vectors up to 2^64-1); "
              "(b) every transition of the bounded MC_Gauge models (create/reject gauge, farm/unfarm by 1-3 farmers, price quote/base/off, time steps "
              "below, at and beyond two epoch durations, master/child gauges; model 'swapfee': the pools' swap-fee gauges, fee arrival, change of the "
-             "distribution denom, a created gauge paid in a fee denom) is executed once on the real application by walking the model's "
+             "distribution denom, a created gauge paid in a fee denom; model 'children': a master gauge over three child pools, every combination of "
+             "priced / unpriced child pairs and of the farmers' child positions) is executed once on the real application by walking the model's "
              "transition graph on nested cache contexts; (c) seeded behaviours: up to ~12 gauges over 3 pools, 4 farmers, own and shared reward denoms, "
              "real-size amounts (6/8/18 decimals), natural queue activation, price loss/recovery, reserve donations, swap-fee gauges with fees arriving in the "
              "current / a stale distribution denom, governance changes of SwapFeeDistrDenom and SwapFeeBurnRate, a ranged pool sharing pool 1's pair "
-             "(one fee collector for two gauges) in half of the runs, gauges created in the fee denoms, locker reward "
+             "(one fee collector for two gauges) in 3 of 8 runs - these open with a directed sequence: both pools farmed, fees collected and paid, one "
+             "oracle price of the pair lost for two epochs -, five pools (two with assets of their own; whole pools losing both prices; master gauges "
+             "with the default or a random selection / order of child pools) in 3 of 8 runs, gauges created in the fee denoms, locker reward "
              "programs, lend (borrower) reward programs paid in a priced asset that gauges also use. Every recorded state is a TLC state of Trace_Gauge."),
         assumptions=["asset decimals are powers of ten (exact sdk.Dec valuation)",
                      "per-farmer payouts are attributed by balance deltas only when the gauge is the only payer of its denom in that block "
